@@ -201,7 +201,7 @@ theorem kGradE_unreached_zero (e : ℝ) (c : Cov ℝ) (x y : List ℝ) (j : Nat)
     apply expand_getD_zero ad _ _ j hi
     · rw [List.length_map, kGradE_length e l _ _ hs (hw ▸ hl), hw]
     · intro k hk
-      apply getD_map_zero _ (by ring)
+      apply getD_map_zero _ (by simp)
       exact ih _ _ k hs (hw ▸ hl) (by rw [hw]; intro h; exact hj ⟨is, hi, k, hk, h⟩)
 
 /-! ### coincident points -/
@@ -322,7 +322,17 @@ theorem kGradE_coincident_zero (e : ℝ) (c : Cov ℝ) (hc : c.NoLinear) (x : Li
     exact ((ih hc _).map _ (by ring)).expand ad _
   | pow l p ad ih =>
     simp only [Cov.kGradE]
-    exact ((ih hc _).map _ (by ring)).expand ad _
+    exact ((ih hc _).map _ (by simp)).expand ad _
+
+/-- **The guard of `Pow.k_grad`**: where the base value is not positive (in float64: underflowed to 0)
+    the gradient of the power node is exactly `0`, for every exponent, operand and guard. -/
+theorem kGradE_pow_nonpos_zero (e : ℝ) (l : Cov ℝ) (p : ℝ) (ad : ActiveDims) (x y : List ℝ)
+    (h : ¬ 0 < l.k (select ad x) (select ad y)) : AllZero ((Cov.pow l p ad).kGradE e x y) := by
+  simp only [Cov.kGradE, h, if_false]
+  apply AllZero.expand
+  intro v hv
+  obtain ⟨a, _, rfl⟩ := List.mem_map.mp hv
+  rfl
 
 /-! ### the guard factor on radial leaves -/
 
